@@ -31,6 +31,20 @@ func (v *VerifFSM) SnapshotBytes() ([]byte, error) {
 	}
 	return snap.(*storeFSMSnapshot).Data.MarshalBinary()
 }
+
+// VerifSnapshot is a snapshot taken by the FSM (raft calls FSM.Snapshot with Apply blocked) that is persisted later:
+// raft runs FSMSnapshot.Persist concurrently with further Apply calls, so the harness can marshal it after more commands.
+type VerifSnapshot struct{ d *meta2.Data }
+
+func (v *VerifFSM) SnapshotHandle() (*VerifSnapshot, error) {
+	snap, err := (*storeFSM)(v.s).Snapshot()
+	if err != nil {
+		return nil, err
+	}
+	return &VerifSnapshot{d: snap.(*storeFSMSnapshot).Data}, nil
+}
+func (s *VerifSnapshot) Bytes() ([]byte, error) { return s.d.MarshalBinary() }
+
 func (v *VerifFSM) Restore(b []byte) error {
 	return (*storeFSM)(v.s).Restore(io.NopCloser(bytes.NewReader(b)))
 }
